@@ -123,6 +123,18 @@ CHECKS = {
         technique="TLA+ model of protect/corrupt/recover checked by TLC at small sizes; TLC-rendered real-size areas replayed; reports judged by TLC",
         design="4/C17",
     ),
+    "C16": dict(
+        specs=["RawHttpR.tla", "RawHttpScn.tla", "RawHttp.tla", "RawHttpIO.tla"],
+        text="RawHttpR renders requests/responses from their parts (percent-encoding with both '+' and %20 for space); RawHttp.tla "
+        "contains a reference parser on wire bytes and TLC checks, one state per message of the small space (methods x paths x "
+        "parameter maps over syntax-relevant bytes x header maps x all bodies over {CR,LF,NUL,a} x status lines x malformed "
+        "start lines), that it recovers exactly the parts - the wire form is unambiguous. The same messages (wire bytes from "
+        "TLC) are parsed by parse_raw_http and compared; random messages with binary bodies are built by the harness, their "
+        "wire form and the parsed parts judged by TLC.",
+        note="Trusted: TLC, RawHttpR/RawHttp.tla. Paths are origin-form without '?', '#' and not starting with '//'; keys unique.",
+        technique="TLA+ reference renderer + parser checked by TLC; TLC-rendered messages replayed; random messages judged by TLC",
+        design="4/C16",
+    ),
 }
 
 NOT_YET = "check not built yet in this round; planned in DESIGN.md section 4"
